@@ -222,6 +222,62 @@ func selftestFail(t *testing.T, format string, args ...any) {
 	t.Fatalf("SELFTEST-FAIL "+format, args...)
 }
 
+// circlAgainstRFC runs circl's own oprf package on the official vectors (DeriveKey, public key and
+// FullEvaluate, which are deterministic). The reference is written on circl's group API, so a
+// reference that does not reproduce the vectors is either wrong itself or sits on a defective
+// group layer; in the second case circl's oprf does not match RFC 9497 either, and that is what
+// C16 states ("... and match RFC 9497"), not a harness error. Returns "" when circl matches.
+func circlAgainstRFC(vs []rfcVector) (suite, detail string) {
+	for _, v := range vs {
+		var si *suiteInfo
+		for i := range allSuites {
+			if allSuites[i].name == v.Identifier {
+				si = &allSuites[i]
+			}
+		}
+		if si == nil {
+			continue
+		}
+		pn, _ := vlib.Catch(func() {
+			sk, err := oprf.DeriveKey(si.suite, v.Mode, unhex(v.Seed), unhex(v.KeyInfo))
+			if err != nil {
+				detail = fmt.Sprintf("mode %d: DeriveKey(seed=%s, info=%s): %v", v.Mode, v.Seed, v.KeyInfo, err)
+				return
+			}
+			if skb, _ := sk.MarshalBinary(); hex.EncodeToString(skb) != v.SkSm {
+				detail = fmt.Sprintf("mode %d: DeriveKey(seed=%s, info=%s) = %x, RFC 9497 skSm = %s", v.Mode, v.Seed, v.KeyInfo, skb, v.SkSm)
+				return
+			}
+			if pkb, _ := sk.Public().MarshalBinary(); v.Mode != 0 && hex.EncodeToString(pkb) != v.PkSm {
+				detail = fmt.Sprintf("mode %d: public key of skSm=%s is %x, RFC 9497 pkSm = %s", v.Mode, v.SkSm, pkb, v.PkSm)
+				return
+			}
+			p := party{si: *si, mode: v.Mode, sk: sk, pk: sk.Public()}
+			for vi, tv := range v.Vectors {
+				var info []byte
+				if v.Mode == 2 {
+					info = unhex(tv.Info)
+				}
+				wantOut := unhexList(tv.Output)
+				for i, in := range unhexList(tv.Input) {
+					out, err := p.fullEvaluate(in, info)
+					if err != nil || i >= len(wantOut) || hex.EncodeToString(out) != hex.EncodeToString(wantOut[i]) {
+						detail = fmt.Sprintf("mode %d vector %d: FullEvaluate(skSm=%s, input=%x, info=%x) = %x (err %v), RFC 9497 Output = %s", v.Mode, vi, v.SkSm, in, info, out, err, tv.Output)
+						return
+					}
+				}
+			}
+		})
+		if pn != nil {
+			detail = fmt.Sprintf("mode %d: panic %v", v.Mode, pn)
+		}
+		if detail != "" {
+			return si.name, detail
+		}
+	}
+	return "", ""
+}
+
 func TestC16RefSelftest(t *testing.T) {
 	defer vlib.Done()
 	data, err := os.ReadFile(fixture("rfc9497.json"))
@@ -231,6 +287,18 @@ func TestC16RefSelftest(t *testing.T) {
 	var vs []rfcVector
 	if err := json.Unmarshal(data, &vs); err != nil {
 		selftestFail(t, "cannot parse vectors: %v", err)
+	}
+	// from here on a failure may be caused by circl's group layer, on which the reference is written: it is a
+	// harness error only if circl's own oprf reproduces the official vectors
+	vectorFail := func(t *testing.T, format string, args ...any) {
+		t.Helper()
+		if suite, detail := circlAgainstRFC(vs); suite != "" {
+			vlib.Selftest("ref-rfc9497", "not reproduced; circl's oprf does not match the RFC 9497 vectors either")
+			vlib.ReportDirect(t, "C16/oprf/"+suite+"/rfc9497-vectors", detail+" [the RFC 9497 reference built on circl's group API fails its self-test too: "+fmt.Sprintf(format, args...)+"]",
+				map[string]interface{}{"suite": suite})
+			t.FailNow()
+		}
+		selftestFail(t, "(circl's own oprf reproduces the RFC 9497 vectors, so the reference's protocol code is at fault) "+format, args...)
 	}
 	nsuites, nvec := 0, 0
 	for _, v := range vs {
@@ -247,11 +315,11 @@ func TestC16RefSelftest(t *testing.T) {
 		r := refSuite{id: si.name, g: si.g, h: si.h, mode: v.Mode}
 		sk, err := r.deriveKey(unhex(v.Seed), unhex(v.KeyInfo))
 		if err != nil || hex.EncodeToString(serS(sk)) != v.SkSm {
-			selftestFail(t, "%s mode %d: DeriveKeyPair sk=%x want %s", v.Identifier, v.Mode, serS(sk), v.SkSm)
+			vectorFail(t, "%s mode %d: DeriveKeyPair sk=%x want %s", v.Identifier, v.Mode, serS(sk), v.SkSm)
 		}
 		pk := si.g.NewElement().MulGen(sk)
 		if v.Mode != 0 && hex.EncodeToString(ser(pk)) != v.PkSm {
-			selftestFail(t, "%s mode %d: pk=%x want %s", v.Identifier, v.Mode, ser(pk), v.PkSm)
+			vectorFail(t, "%s mode %d: pk=%x want %s", v.Identifier, v.Mode, ser(pk), v.PkSm)
 		}
 		for vi, tv := range v.Vectors {
 			nvec++
@@ -265,18 +333,18 @@ func TestC16RefSelftest(t *testing.T) {
 				info = unhex(tv.Info)
 			}
 			if len(inputs) != tv.Batch || len(blinds) != tv.Batch {
-				selftestFail(t, "vector shape")
+				vectorFail(t, "vector shape")
 			}
 			bs := make([]group.Scalar, tv.Batch)
 			bl := make([]group.Element, tv.Batch)
 			for i := range inputs {
 				bs[i] = si.g.NewScalar()
 				if err := bs[i].UnmarshalBinary(blinds[i]); err != nil {
-					selftestFail(t, "blind decode: %v", err)
+					vectorFail(t, "blind decode: %v", err)
 				}
 				e, ok := r.blind(inputs[i], bs[i])
 				if !ok || hex.EncodeToString(ser(e)) != hex.EncodeToString(wantBl[i]) {
-					selftestFail(t, "%s mode %d vec %d: blinded[%d] mismatch", v.Identifier, v.Mode, vi, i)
+					vectorFail(t, "%s mode %d vec %d: blinded[%d] mismatch", v.Identifier, v.Mode, vi, i)
 				}
 				bl[i] = e
 			}
@@ -284,42 +352,42 @@ func TestC16RefSelftest(t *testing.T) {
 			if v.Mode != 0 {
 				rr = si.g.NewScalar()
 				if err := rr.UnmarshalBinary(unhex(tv.Proof.R)); err != nil {
-					selftestFail(t, "r decode: %v", err)
+					vectorFail(t, "r decode: %v", err)
 				}
 			}
 			ev, c, s, ok := r.blindEvaluate(sk, bl, info, rr)
 			if !ok {
-				selftestFail(t, "blindEvaluate failed")
+				vectorFail(t, "blindEvaluate failed")
 			}
 			for i := range ev {
 				if hex.EncodeToString(ser(ev[i])) != hex.EncodeToString(wantEv[i]) {
-					selftestFail(t, "%s mode %d vec %d: evaluation[%d] mismatch", v.Identifier, v.Mode, vi, i)
+					vectorFail(t, "%s mode %d vec %d: evaluation[%d] mismatch", v.Identifier, v.Mode, vi, i)
 				}
 			}
 			if v.Mode != 0 {
 				got := hex.EncodeToString(append(serS(c), serS(s)...))
 				if got != tv.Proof.Proof {
-					selftestFail(t, "%s mode %d vec %d: proof %s want %s", v.Identifier, v.Mode, vi, got, tv.Proof.Proof)
+					vectorFail(t, "%s mode %d vec %d: proof %s want %s", v.Identifier, v.Mode, vi, got, tv.Proof.Proof)
 				}
 				if !r.verifyEvaluation(pk, bl, ev, info, c, s) {
-					selftestFail(t, "%s mode %d vec %d: reference verifier rejects the RFC proof", v.Identifier, v.Mode, vi)
+					vectorFail(t, "%s mode %d vec %d: reference verifier rejects the RFC proof", v.Identifier, v.Mode, vi)
 				}
 				// the reference verifier must reject a one-off challenge / response / element
 				one := si.g.NewScalar().SetUint64(1)
 				if r.verifyEvaluation(pk, bl, ev, info, si.g.NewScalar().Add(c, one), s) ||
 					r.verifyEvaluation(pk, bl, ev, info, c, si.g.NewScalar().Add(s, one)) ||
 					r.verifyEvaluation(si.g.NewElement().Add(pk, si.g.Generator()), bl, ev, info, c, s) {
-					selftestFail(t, "%s mode %d vec %d: reference verifier accepts an altered proof", v.Identifier, v.Mode, vi)
+					vectorFail(t, "%s mode %d vec %d: reference verifier accepts an altered proof", v.Identifier, v.Mode, vi)
 				}
 			}
 			for i := range inputs {
 				out := r.finalize(inputs[i], info, bs[i], ev[i])
 				if hex.EncodeToString(out) != hex.EncodeToString(wantOut[i]) {
-					selftestFail(t, "%s mode %d vec %d: output[%d] mismatch", v.Identifier, v.Mode, vi, i)
+					vectorFail(t, "%s mode %d vec %d: output[%d] mismatch", v.Identifier, v.Mode, vi, i)
 				}
 				d, ok := r.evaluate(sk, inputs[i], info)
 				if !ok || hex.EncodeToString(d) != hex.EncodeToString(wantOut[i]) {
-					selftestFail(t, "%s mode %d vec %d: direct Evaluate[%d] mismatch", v.Identifier, v.Mode, vi, i)
+					vectorFail(t, "%s mode %d vec %d: direct Evaluate[%d] mismatch", v.Identifier, v.Mode, vi, i)
 				}
 			}
 		}
@@ -332,7 +400,7 @@ func TestC16RefSelftest(t *testing.T) {
 		m1 := si.scalarFromBig(new(big.Int).Sub(si.order, big.NewInt(1)))
 		z := si.g.NewScalar().Add(m1, si.g.NewScalar().SetUint64(1))
 		if !z.IsZero() {
-			selftestFail(t, "%s: order constant wrong", si.name)
+			selftestFail(t, "%s: (order-1)+1 is not zero in circl's scalar arithmetic (Scalar.UnmarshalBinary / Add / IsZero misbehave, outside C16, or the order constant of the harness is wrong)", si.name)
 		}
 	}
 	vlib.Selftest("ref-rfc9497", "ok")
